@@ -151,6 +151,11 @@ StringDictionaryHASHRPF::StringDictionaryHASHRPF(IteratorDictString *it, uint,
 unsigned long StringDictionaryHASHRPF::locate(uchar *str, uint strLen) {
   unsigned long id = NORESULT;
 
+  // rp->maxchar (largest byte + 1) terminates every stored string and occurs
+  // in no member: a pattern containing it cannot be one
+  if (memchr(str, rp->maxchar, strLen) != NULL)
+    return id;
+
   size_t hval = bitwisehash(str, strLen, hash->tsize);
   size_t next;
 
